@@ -121,8 +121,10 @@ Proof.
     + eapply HE; eauto.
     + lia.
   - destruct its; try discriminate.
-    destruct (rep_snext run a lo0 hi0 ctx n p r) as [[[x0 c'] r0]|] eqn:E; [|discriminate].
-    injection H as <- <- <-. eapply rep_snext_ext; eauto.
+    + destruct (rep_snext run a lo0 hi0 ctx n p r) as [[[x0 c'] r0]|] eqn:E; [|discriminate].
+      injection H as <- <- <-. eapply rep_snext_ext; eauto.
+    + destruct (run (TryMap PFalse FId k Empty) ctx p r) as [[[?|] ?]|]; try discriminate.
+      injection H as <- <- <-. exact I.
 Qed.
 
 Lemma sdrive_ext : forall fuel i ctx its lim acc acce p r items fl p' ems r',
@@ -370,6 +372,7 @@ Proof.
   - (* Pratt *) eapply (proj1 (pratt_ext _ IH g ops ctx n)); eauto.
   - (* GroupArr *) eapply group_sem_ext; eauto.
   - discriminate.
+  - (* Skip *) injection H as <- <- <- <-. lia.
   - (* ExtWrap *)
     destruct (sem n g ctx p a) as [[[[[v1 p1] e1]|] [[q e0]|]]|] eqn:E1; try discriminate;
       injection H as <- <- <- <-; eapply IH; eauto.
